@@ -304,17 +304,20 @@ Qed.
 Lemma has_id_is_some t : has_id t = is_some (t_fid t).
 Proof. reflexivity. Qed.
 
-Definition is_full (h : handle) : bool :=
-  match h_src h with SrcMem cap => cap <=? length (h_mem h) | _ => false end.
+Definition is_full (h : handle) (t : traj) : bool :=
+  match h_src h with SrcMem cap => cap <? h_used h + t_size t | _ => false end.
+Definition too_large (h : handle) (t : traj) : bool :=
+  match cache_cap h with Some cp => cp <? t_size t | None => false end.
 
 Lemma add_eq fs h t : hinv fs h -> h_mode h <> MRead ->
   (acceptable (model_def fs h) t = false /\
    exists e, add fixed_cfg fs h t = (fs, h, OErr e) /\ coarse (OErr e) = OErr EReject) \/
   (acceptable (model_def fs h) t = true /\
-   add fixed_cfg fs h t = if is_full h then (fs, h, OErr EFull)
+   add fixed_cfg fs h t = if too_large h t then (fs, h, OErr ETooLarge)
+                          else if is_full h t then (fs, h, OErr EFull)
                           else (fst (insert fs h t true), snd (insert fs h t true), OIdx (h_next h))).
 Proof.
-  intros Hi Md. unfold add, is_full. cbn [fix_C10a fix_F6 fixed_cfg].
+  intros Hi Md. unfold add, is_full, too_large. cbn [fix_C10a fix_F6 fixed_cfg].
   destruct (h_mode h) eqn:Em; [congruence| |].
   all: unfold model_def, acceptable.
   all: destruct (def_cases fs h Hi) as [(Es & Ei)|(s & b & Es & Ei)]; rewrite Es, Ei; cbn [andb negb].
@@ -324,7 +327,8 @@ Proof.
   all: try (left; split; [reflexivity|eexists; split; [reflexivity|reflexivity]]).
   all: right; split; [reflexivity|].
   all: destruct (insert fs h t true) as [fs1 h1]; cbn [fst snd];
-       destruct (match h_src h with SrcMem cap => cap <=? length (h_mem h) | _ => false end); reflexivity.
+       destruct (match cache_cap h with Some cp => cp <? t_size t | None => false end);
+       destruct (match h_src h with SrcMem cap => cap <? h_used h + t_size t | _ => false end); reflexivity.
 Qed.
 
 Lemma insert_mem fs h t cap : h_src h = SrcMem cap ->
@@ -332,14 +336,15 @@ Lemma insert_mem fs h t cap : h_src h = SrcMem cap ->
   (fs, mkH (SrcMem cap) (h_mode h) (S (h_next h)) (h_cache h) (h_mem h ++ [mkItem (t_tag t) (t_fid t) true])
            (h_snap h) (Some (match h_indexable h with Some b => b | None => has_id t end))
            (if match h_indexable h with Some b => b | None => has_id t end then true else h_stale h)
-           (h_pending h) (match h_msig h with Some s => Some s | None => Some (t_sig t) end)).
+           (h_pending h) (match h_msig h with Some s => Some s | None => Some (t_sig t) end)
+           (h_cap h) (h_used h + t_size t)).
 Proof. intros E. unfold insert. rewrite E. reflexivity. Qed.
 
 Lemma insert_pending fs h t p : h_src h = SrcFile p -> h_pending h = true -> h_indexable h = None ->
   insert fs h t true =
   (fupd p (NFile (mkNc [item_of t true] (t_sig t) (has_id t) [])) fs,
    mkH (SrcFile p) (h_mode h) (S (h_next h)) ((h_next h, mkItem (t_tag t) (t_fid t) true) :: h_cache h) (h_mem h)
-       (h_snap h) (Some (has_id t)) (if has_id t then true else h_stale h) false (h_msig h)).
+       (h_snap h) (Some (has_id t)) (if has_id t then true else h_stale h) false (h_msig h) (h_cap h) (h_used h)).
 Proof. intros E P Ix. unfold insert. rewrite E, P, Ix. reflexivity. Qed.
 
 Lemma insert_open fs h t p f b : h_src h = SrcFile p -> h_pending h = false ->
@@ -347,7 +352,7 @@ Lemma insert_open fs h t p f b : h_src h = SrcFile p -> h_pending h = false ->
   insert fs h t true =
   (fupd p (NFile (mkNc (f_items f ++ [item_of t true]) (f_sig f) (f_hasidx f) (f_table f))) fs,
    mkH (SrcFile p) (h_mode h) (S (h_next h)) ((h_next h, mkItem (t_tag t) (t_fid t) true) :: h_cache h) (h_mem h)
-       (h_snap h) (Some b) (if b then true else h_stale h) false (h_msig h)).
+       (h_snap h) (Some b) (if b then true else h_stale h) false (h_msig h) (h_cap h) (h_used h)).
 Proof. intros E P L Ix. unfold insert. rewrite E, P, L, Ix. reflexivity. Qed.
 
 Lemma spec_add_reject s h t : s_h s = Some h -> sh_mode h <> MRead -> acceptable (s_def s h) t = false ->
@@ -359,14 +364,17 @@ Qed.
 Lemma spec_add_accept s h t : s_h s = Some h -> sh_mode h <> MRead -> acceptable (s_def s h) t = true ->
   spec_step s (Add t) =
   match sh_loc h with
-  | SLMem items cap def =>
-      if cap <=? length items then (s, OErr EFull)
+  | SLMem items cap def used =>
+      if cap <? t_size t then (s, OErr ETooLarge)
+      else if cap <? used + t_size t then (s, OErr EFull)
       else (mkSW (s_fs s)
                  (Some (mkSH (SLMem (items ++ [(t_tag t, t_fid t)]) cap
-                                    (match def with Some d => Some d | None => Some (t_sig t, has_id t) end))
-                             (sh_mode h))),
+                                    (match def with Some d => Some d | None => Some (t_sig t, has_id t) end)
+                                    (used + t_size t))
+                             (sh_mode h) (sh_cap h))),
             OIdx (length items))
   | SLFile p =>
+      if match sh_cap h with Some cp => cp <? t_size t | None => false end then (s, OErr ETooLarge) else
       let st := match slookup p (s_fs s) with Some st => st | None => mkS [] (t_sig t) (has_id t) end in
       (mkSW (supd p (mkS (ss_items st ++ [(t_tag t, t_fid t)]) (ss_sig st) (ss_ident st)) (s_fs s)) (Some h),
        OIdx (length (ss_items st)))
@@ -395,7 +403,7 @@ Lemma accept_mem fs h t cap : Inv (mkW fs (Some h)) -> h_src h = SrcMem cap ->
   abs_h (snd (insert fs h t true))
   = mkSH (SLMem (map strip (h_mem h) ++ [(t_tag t, t_fid t)]) cap
                 (match (match h_msig h, h_indexable h with Some s, Some b => Some (s, b) | _, _ => None end) with
-                 | Some d => Some d | None => Some (t_sig t, has_id t) end)) (h_mode h) /\
+                 | Some d => Some d | None => Some (t_sig t, has_id t) end) (h_used h + t_size t)) (h_mode h) (h_cap h) /\
   h_next h = length (map strip (h_mem h)).
 Proof.
   intros I Es A. pose proof (inv_handle _ I _ eq_refl) as Hi; cbn in Hi.
@@ -497,14 +505,18 @@ Proof.
   1,3: injection E as <- <- <-; split; auto; rewrite Ec;
        apply spec_add_reject with (h := abs_h h); auto; now rewrite Hdef.
   all: rewrite (spec_add_accept (abs (mkW fs (Some h))) (abs_h h) t eq_refl Mr') by (now rewrite Hdef).
-  all: unfold is_full in E; destruct (h_src h) as [cap|p|p] eqn:Es.
+  all: unfold is_full, too_large, cache_cap in E; destruct (h_src h) as [cap|p|p] eqn:Es.
   all: try (unfold hinv in Hi; rewrite Es in Hi; tauto).
-  all: cbn [abs_h sh_loc]; rewrite ?Es; cbn [sh_loc].
-  1,3: rewrite map_length; destruct (cap <=? length (h_mem h));
+  all: cbn [abs_h sh_loc sh_cap]; rewrite ?Es; cbn [sh_loc sh_cap].
+  1,3: destruct (cap <? t_size t);
        [injection E as <- <- <-; split; auto
-       | destruct (accept_mem fs h t cap I Es A) as (F1 & F2 & F3 & F4);
-         injection E as <- <- <-; rewrite F1; split; auto;
-         unfold abs; cbn [w_fs w_h option_map s_fs]; rewrite F3, F4, map_length; reflexivity].
+       | destruct (cap <? h_used h + t_size t);
+         [injection E as <- <- <-; split; auto
+         | destruct (accept_mem fs h t cap I Es A) as (F1 & F2 & F3 & F4);
+           injection E as <- <- <-; rewrite F1; split; auto;
+           unfold abs; cbn [w_fs w_h option_map s_fs]; rewrite F3, F4, map_length; reflexivity]].
+  all: destruct (match h_cap h with Some cp => cp <? t_size t | None => false end);
+       [injection E as <- <- <-; split; auto|].
   all: destruct (accept_file fs h t p I Es Mr A) as (F1 & F2 & F3 & F4);
        injection E as <- <- <-; split; auto;
        unfold abs; cbn [w_fs w_h option_map s_fs]; rewrite F2, F3, F4; reflexivity.
